@@ -5,6 +5,7 @@
   callables, overload tables, dataset records), expression, options dictionary, state and fuel.
 -/
 import LabreaModel.EvalLemmas
+import LabreaModel.CacheTransparency
 namespace Labrea
 
 /-- the failure is an `EvaluationError` whose `source` is node `id` -/
@@ -105,5 +106,19 @@ def c12Witness : Option (Except Err V × St) :=
 example : (match c12Witness with
     | some (.error err, _) => err == [evalFrame 3, { cls := .keyNotFound, src := 1, key := "A" }]
     | _ => false) = true := by decide +kernel
+
+
+/-! ### never stored, after any history -/
+
+/-- **failure_never_stored.** For a MemoryCache-cached node whose sub-computations leave its cache alone and for which
+    equal fingerprints imply equal outcomes: when the uncached outcome under `o` is a failure, the cached evaluation
+    returns exactly that failure and the cache's entries are what they were before — whatever history filled the
+    store. (The next evaluation therefore recomputes, and succeeds as soon as the options allow it.) -/
+theorem failure_never_stored {env : Env} {run : Run} {x : Expr} {c : Nat} {D : V → Prop} {fp : V → V}
+    {den : V → Except Err V} (H : FingerprintSound env run x c D fp den) (o : V) (ho : D o) (s : St)
+    (hinv : StoreInv c D fp den s) (err : Err) (hd : den o = .error err) (r : Except Err V) (s' : St)
+    (h : cachedOp env run x c .evaluate o s = some (r, s')) : r = .error err ∧ s'.cacheEntries c = s.cacheEntries c :=
+  cached_failure_leaves_store H o ho s hinv err hd r s' h
+
 
 end Labrea
